@@ -165,6 +165,9 @@ def run(ctx):
     from .. import dictshape_bind
 
     dictshape_bind.run_matrix(ctx, "C04")
+    from .. import typing_bind
+
+    typing_bind.run_matrix(ctx, "C04")     # spec/Typing.tla: documented annotation forms x XML types x leaf types
     roots = [zoo.Leaf, zoo.Item, zoo.QNames, zoo.Prims, zoo.Seq, zoo.Compound, zoo.UnionModels, zoo.UnionEl, zoo.ReqNil]
     for k, obj in enumerate(zoo.instances(ctx.seed + 4, ctx.pick(300, 10**7), roots=roots)):
         ctx.case(("zoo-dict", k))
